@@ -1,14 +1,23 @@
 """Translator for C03: regenerates lean/FordModel/Generated/C03.lean from the repo.
 
-Extracted (tables, not algorithms):
+Extracted (tables, not algorithms).  Wherever a table is a property of what a function DOES rather than of how it is
+spelt, it is obtained by probing the real function on stub inputs, not by matching its source text:
   * ford.md_admonition.ADMONITION_TYPE            -> Ford.Gen.admonitionTypes (key, css class), dict order
-    (cross-checked against the alternation inside the compiled ADMONITION_RE / END_RE patterns)
+    (cross-checked by probing the compiled ADMONITION_RE / END_RE: on `@<word>` / `@end<word>` for every key, every
+    key in upper case, and near-miss words, the `type` group is the first key - in dict order - that is a prefix of
+    the word, case-insensitively, and there is no match when no key is; the pattern *text* is not looked at)
   * dataclasses.fields(ford.settings.EntitySettings) -> Ford.Gen.entityFields (read_metadata's one-line heuristic)
   * AdmonitionPreprocessor.INDENT_SIZE               -> Ford.Gen.admIndentSize
   * the filter of FortranSourceFile.markdownable_items (which registered entities Project.markdown converts):
-    the attribute names A of its `not hasattr(item, A)` conjuncts       -> Ford.Gen.markdownSkipAttrs
-  * every attribute that a `correlate` method of ford/sourceform.py assigns on an object other than `self`
-    (correlate runs between parsing and the conversion)                  -> Ford.Gen.correlateSetAttrs
+    the attribute names A such that a registered entity carrying A is left out  -> Ford.Gen.markdownSkipAttrs
+    (probed: a small real file is parsed, one attribute at a time - every attribute name that occurs anywhere in
+    ford/sourceform.py - is put on a registered entity, and `markdownable_items` is asked again)
+  * every attribute that a `correlate` method of ford/sourceform.py assigns on an object other than `self`, also
+    through helper methods / module functions it calls (correlate runs between parsing and the conversion)
+                                                                           -> Ford.Gen.correlateSetAttrs
+  * FortranReader.include(): where each of the four markers of the nested reader that reads an included file comes
+    from - the enclosing reader's marker number i, or a constant - probed by reading a file with an include line
+    under two different marker configurations with a spy on FortranReader.__init__     -> Ford.Gen.includeMarkSrc
 A construct that cannot be found raises (counts as "tie broken").
 """
 from __future__ import annotations
@@ -17,6 +26,9 @@ import ast
 import dataclasses
 import inspect
 import re
+import tempfile
+import textwrap
+from pathlib import Path
 
 from harness import common
 
@@ -33,74 +45,239 @@ def _chars(s: str) -> str:
     return "[" + ", ".join(one(c) for c in s) + "]"
 
 
+IDENT = re.compile(r"[A-Za-z_][A-Za-z0-9_]*\Z")
+
+
+def _attr_universe(sf):
+    """Every name that occurs in ford/sourceform.py as an attribute (`x.name`) or as an identifier-like string
+    constant (`hasattr(x, "name")`, `getattr`, ...): the candidates for the conversion filter probe."""
+    tree = ast.parse(inspect.getsource(sf))
+    names = set()
+    for n in ast.walk(tree):
+        if isinstance(n, ast.Attribute):
+            names.add(n.attr)
+        elif isinstance(n, ast.Constant) and isinstance(n.value, str) and IDENT.match(n.value):
+            names.add(n.value)
+    return sorted(names)
+
+
+PROBE_SOURCE = ["module probe_m", "integer :: probe_v", "!! text", "type :: probe_t", "integer :: probe_c", "end type",
+                "contains", "subroutine probe_s(probe_a)", "integer :: probe_a", "end subroutine", "end module"]
+
+
+def _probe_project(d: Path):
+    import ford.fortran_project
+    import ford.sourceform as sf
+    from ford.settings import ProjectSettings
+
+    (d / "probe.f90").write_text("".join(l + "\n" for l in PROBE_SOURCE))
+    s = ProjectSettings(src_dir=[d], preprocess=False, graph=False, search=False, warn=False, dbg=True, quiet=True)
+    sf.namelist = sf.NameSelector()
+    with common.quiet():
+        p = ford.fortran_project.Project(s)
+    files = list(p.allfiles)
+    if len(files) != 1:
+        raise ValueError("probe project: the probe file was not parsed")
+    return files[0]
+
+
 def _conversion_filter(sf):
-    """The condition under which `FortranSourceFile.markdownable_items` keeps a registered entity: must be a
-    conjunction of `isinstance(item, FortranBase)` and `not hasattr(item, "<attr>")` terms inside a loop over
-    `self._to_be_markdowned`; returns the <attr>s."""
-    prop = inspect.getattr_static(sf.FortranSourceFile, "markdownable_items")
-    fn = prop.fget if isinstance(prop, property) else prop
-    tree = ast.parse(textwrap_dedent(inspect.getsource(fn)))
-    loops = [n for n in ast.walk(tree) if isinstance(n, ast.For) and isinstance(n.iter, ast.Attribute)
-             and n.iter.attr == "_to_be_markdowned"]
-    if len(loops) != 1 or not isinstance(loops[0].target, ast.Name):
-        raise ValueError("markdownable_items no longer loops once over self._to_be_markdowned")
-    var = loops[0].target.id
-    ifs = [n for n in loops[0].body if isinstance(n, ast.If)]
-    others = [n for n in loops[0].body if not isinstance(n, (ast.If, ast.Expr))]
-    if len(ifs) > 1 or others or any(i.orelse for i in ifs):
-        raise ValueError("markdownable_items: loop body is not a single `if <condition>: items.append(item)`")
-    if not ifs:
-        return []
-    cond = ifs[0].test
-    terms = cond.values if isinstance(cond, ast.BoolOp) and isinstance(cond.op, ast.And) else [cond]
-    skip = []
-    for t in terms:
-        if isinstance(t, ast.Call) and getattr(t.func, "id", None) == "isinstance" and \
-                isinstance(t.args[0], ast.Name) and t.args[0].id == var and getattr(t.args[1], "id", "") == "FortranBase":
-            continue
-        if isinstance(t, ast.UnaryOp) and isinstance(t.op, ast.Not) and isinstance(t.operand, ast.Call) and \
-                getattr(t.operand.func, "id", None) == "hasattr" and len(t.operand.args) == 2 and \
-                isinstance(t.operand.args[0], ast.Name) and t.operand.args[0].id == var and \
-                isinstance(t.operand.args[1], ast.Constant) and isinstance(t.operand.args[1].value, str):
-            skip.append(t.operand.args[1].value)
-            continue
-        raise ValueError("markdownable_items: unrecognised term in the filter: " + ast.unparse(t))
-    return skip
+    """Which attributes take a registered entity out of `FortranSourceFile.markdownable_items`.  Probed on a real
+    (tiny) parsed file: for every candidate attribute name that the entity does not have yet, the attribute is set,
+    the property is read again and the attribute removed.  The spelling of the property (loop or comprehension,
+    inline condition or helper, literal or constant) is immaterial."""
+    with tempfile.TemporaryDirectory(prefix="ford-verif-c03-") as td:
+        src = _probe_project(Path(td))
+        base = list(src.markdownable_items)
+        ents = [x for x in base if x is not src and isinstance(x, sf.FortranBase)]
+        if src not in base or len(ents) < 5:
+            raise ValueError("markdownable_items: the file itself / its registered entities are not returned "
+                             f"({len(ents)} entities of the probe file)")
+        skip = []
+        sentinel = "probe"
+        for ent in (ents[0], ents[-1]):
+            found = []
+            for a in _attr_universe(sf):
+                if a.startswith("__") or hasattr(ent, a):
+                    continue
+                try:
+                    object.__setattr__(ent, a, sentinel)
+                except Exception:
+                    continue
+                try:
+                    now = list(src.markdownable_items)
+                except Exception as e:
+                    raise ValueError(f"markdownable_items raised with attribute {a!r} on an entity: {e}") from None
+                finally:
+                    try:
+                        object.__delattr__(ent, a)
+                    except Exception:
+                        pass
+                if not any(x is ent for x in now):
+                    found.append(a)
+                elif len(now) != len(base):
+                    raise ValueError(f"markdownable_items: attribute {a!r} on one entity changed the others")
+            skip.append(found)
+        if skip[0] != skip[1]:
+            raise ValueError(f"markdownable_items: the filter differs between kinds of entities: {skip}")
+        if [x for x in src.markdownable_items] != base:
+            raise ValueError("markdownable_items: probe did not restore the entities")
+        return skip[0]
 
 
-def textwrap_dedent(src):
-    import textwrap
-    return textwrap.dedent(src)
+def _assigned_attrs(fn: ast.AST, self_name):
+    """attribute names assigned inside `fn` on an object other than `self_name` (None: on any object)"""
+    out = []
+    for n in ast.walk(fn):
+        tg = []
+        if isinstance(n, ast.Assign):
+            tg = n.targets
+        elif isinstance(n, (ast.AugAssign, ast.AnnAssign)):
+            tg = [n.target]
+        elif isinstance(n, ast.Call) and getattr(n.func, "id", None) == "setattr" and len(n.args) >= 2 and \
+                isinstance(n.args[1], ast.Constant) and \
+                not (isinstance(n.args[0], ast.Name) and n.args[0].id == self_name):
+            out.append(str(n.args[1].value))
+        flat = []
+        for x in tg:
+            flat += list(x.elts) if isinstance(x, (ast.Tuple, ast.List)) else [x]
+        for x in flat:
+            if isinstance(x, ast.Attribute) and not (isinstance(x.value, ast.Name) and x.value.id == self_name):
+                out.append(x.attr)
+    return out
 
 
 def _correlate_set_attrs(sf):
     """Attributes assigned (x.attr = ..., x.attr += ..., setattr(x, "attr", ...)) on an object other than `self`
-    inside any method named `correlate` of ford/sourceform.py."""
+    inside any method named `correlate` of ford/sourceform.py - or inside a helper it calls: a method of the same
+    module called as `self.helper(...)` (there `self` is still the correlating object), a module-level function
+    or a `Class.helper(...)` call (there every object counts).  Helpers are followed transitively."""
     tree = ast.parse(inspect.getsource(sf))
-    out, n_methods = [], 0
-    for cls in (n for n in ast.walk(tree) if isinstance(n, ast.ClassDef)):
+    classes = [n for n in ast.walk(tree) if isinstance(n, ast.ClassDef)]
+    methods: dict = {}
+    for cls in classes:
         for f in cls.body:
-            if not (isinstance(f, ast.FunctionDef) and f.name == "correlate"):
+            if isinstance(f, ast.FunctionDef):
+                methods.setdefault(f.name, []).append(f)
+    functions = {f.name: f for f in tree.body if isinstance(f, ast.FunctionDef)}
+    class_names = {c.name for c in classes}
+    out, n_methods = [], 0
+    seen = set()
+
+    def self_of(f):
+        args = f.args.posonlyargs + f.args.args
+        deco = {getattr(d, "id", getattr(d, "attr", None)) for d in f.decorator_list}
+        if "staticmethod" in deco or not args:
+            return None
+        return args[0].arg
+
+    def scan(f, self_name, depth):
+        key = (id(f), self_name)
+        if key in seen or depth > 4:
+            return
+        seen.add(key)
+        out.extend(_assigned_attrs(f, self_name))
+        for n in ast.walk(f):
+            if not isinstance(n, ast.Call):
                 continue
-            n_methods += 1
-            for n in ast.walk(f):
-                tg = []
-                if isinstance(n, ast.Assign):
-                    tg = n.targets
-                elif isinstance(n, (ast.AugAssign, ast.AnnAssign)):
-                    tg = [n.target]
-                elif isinstance(n, ast.Call) and getattr(n.func, "id", None) == "setattr" and len(n.args) >= 2 and \
-                        isinstance(n.args[1], ast.Constant) and not (isinstance(n.args[0], ast.Name) and n.args[0].id == "self"):
-                    out.append(str(n.args[1].value))
-                flat = []
-                for x in tg:
-                    flat += list(x.elts) if isinstance(x, (ast.Tuple, ast.List)) else [x]
-                for x in flat:
-                    if isinstance(x, ast.Attribute) and not (isinstance(x.value, ast.Name) and x.value.id == "self"):
-                        out.append(x.attr)
+            fn = n.func
+            if isinstance(fn, ast.Attribute) and isinstance(fn.value, ast.Name):
+                if fn.value.id == self_name and self_name is not None and fn.attr != "correlate":
+                    for h in methods.get(fn.attr, []):
+                        scan(h, self_of(h), depth + 1)
+                elif fn.value.id in class_names and fn.attr != "correlate":
+                    for h in methods.get(fn.attr, []):
+                        scan(h, None, depth + 1)
+            elif isinstance(fn, ast.Name) and fn.id in functions:
+                scan(functions[fn.id], None, depth + 1)
+
+    for cls in classes:
+        for f in cls.body:
+            if isinstance(f, ast.FunctionDef) and f.name == "correlate":
+                n_methods += 1
+                scan(f, self_of(f), 0)
     if n_methods < 3:
         raise ValueError("correlate methods of ford/sourceform.py not found")
     return sorted(set(out))
+
+
+def _first_prefix_key(keys, word):
+    w = word.lower()
+    for k in keys:
+        if w.startswith(k):
+            return k
+    return None
+
+
+def _check_admonition_regexes(P, keys):
+    """ADMONITION_RE / END_RE recognise exactly the note types of the table, case-insensitively, an earlier key of
+    the dict winning over a later one (alternation order) - decided by probing the compiled patterns."""
+    words = set()
+    for k in keys:
+        words |= {k, k.upper(), k.capitalize(), k[:-1], k + "x", "x" + k, "end" + k, k[1:], k + k}
+    words |= {"", "e", "end", "zz"}
+    for w in sorted(words):
+        want = _first_prefix_key(keys, w)
+        for rex, text, what in ((P.ADMONITION_RE, f"  @{w} tail", "ADMONITION_RE"), (P.END_RE, f"x @end{w} tail", "END_RE")):
+            m = rex.search(text)
+            got = m["type"].lower() if m else None
+            if got != want:
+                raise ValueError(f"{what} on {text!r}: type {got!r}, the ADMONITION_TYPE table says {want!r}")
+            if m and what == "ADMONITION_RE" and (m["indent"], m["posttxt"]) != ("  ", w[len(want):] + " tail"):
+                raise ValueError(f"ADMONITION_RE on {text!r}: groups {m.groupdict()!r}")
+            if m and what == "END_RE" and (m["posttxt"] or "") != (w[len(want):] + " tail").lstrip():
+                raise ValueError(f"END_RE on {text!r}: groups {m.groupdict()!r}")
+
+
+def _include_mark_sources(R):
+    """Where the four markers of the nested reader of an included file come from.  Probed: a file with an include
+    line is read under two marker configurations, a spy on `FortranReader.__init__` records the arguments every
+    reader is constructed with (bound to the signature, so positional / keyword spelling is immaterial)."""
+    cls = R.FortranReader
+    orig = cls.__init__
+    sig = inspect.signature(orig)
+    params = list(sig.parameters)[1:]  # without self: filename, then the four markers
+    if len(params) < 5:
+        raise ValueError("FortranReader.__init__ no longer takes a file name and four markers")
+    recs = []
+
+    def spy(self, *a, **k):
+        b = sig.bind(self, *a, **k)
+        b.apply_defaults()
+        recs.append([b.arguments[p] for p in params[:5]])
+        return orig(self, *a, **k)
+
+    probes = [("a1", "b2", "c3", "d4"), ("w5", "x6", "y7", "z8")]
+    seen = []
+    with tempfile.TemporaryDirectory(prefix="ford-verif-c03-") as td:
+        main, inc = Path(td) / "probe_main.f90", Path(td) / "probe_part.inc"
+        main.write_text("x = 1\ninclude 'probe_part.inc'\nz = 3\n")
+        inc.write_text("y = 2\n")
+        cls.__init__ = spy
+        try:
+            for marks in probes:
+                recs.clear()
+                with common.quiet():
+                    items = list(cls(str(main), *marks))
+                if "y = 2" not in items:
+                    raise ValueError(f"FortranReader: the probe include file was not read ({items})")
+                nested = [r[1:] for r in recs if str(r[0]).endswith("probe_part.inc")]
+                if len(nested) != 1:
+                    raise ValueError("FortranReader.include: no nested FortranReader is constructed for the included file")
+                seen.append(nested[0])
+        finally:
+            cls.__init__ = orig
+    out = []
+    for j in range(4):
+        a, b = seen[0][j], seen[1][j]
+        if a in probes[0] and b in probes[1] and probes[0].index(a) == probes[1].index(b):
+            out.append(("outer", probes[0].index(a)))
+        elif a == b and isinstance(a, str):
+            out.append(("const", a))
+        else:
+            raise ValueError(f"FortranReader.include: marker {j} of the nested reader is {a!r} / {b!r} for outer markers "
+                             f"{probes[0]} / {probes[1]}")
+    return out
 
 
 def extract():
@@ -108,6 +285,7 @@ def extract():
     import ford.sourceform as SF
     import ford.md_admonition as A
     import ford.settings as S
+    import ford.reader as R
 
     types = A.ADMONITION_TYPE
     if not isinstance(types, dict) or not types:
@@ -115,14 +293,8 @@ def extract():
     for k, v in types.items():
         if not (isinstance(k, str) and isinstance(v, str) and re.fullmatch(r"[a-z]+", k)):
             raise ValueError(f"unexpected ADMONITION_TYPE entry {k!r}: {v!r}")
-    alt = "|".join(types.keys())
     P = A.AdmonitionPreprocessor
-    if f"@(?P<type>{alt})" not in P.ADMONITION_RE.pattern:
-        raise ValueError("ADMONITION_RE is no longer built from ADMONITION_TYPE keys")
-    if f"@end(?P<type>{alt})" not in P.END_RE.pattern:
-        raise ValueError("END_RE is no longer built from ADMONITION_TYPE keys")
-    if not (P.ADMONITION_RE.flags & re.IGNORECASE and P.END_RE.flags & re.IGNORECASE):
-        raise ValueError("admonition regexes are no longer case-insensitive")
+    _check_admonition_regexes(P, list(types.keys()))
     indent = P.INDENT_SIZE
     if P.INDENT != " " * indent:
         raise ValueError("INDENT is not INDENT_SIZE blanks")
@@ -132,13 +304,16 @@ def extract():
     skip = _conversion_filter(SF)
     cset = _correlate_set_attrs(SF)
     for a in skip + cset:
-        if not re.fullmatch(r"[A-Za-z_][A-Za-z0-9_]*", a):
+        if not IDENT.match(a):
             raise ValueError(f"unexpected attribute name {a!r}")
-    return {"types": list(types.items()), "fields": fields, "indent": indent, "skip_attrs": skip, "correlate_set": cset}
+    inc = _include_mark_sources(R)
+    return {"types": list(types.items()), "fields": fields, "indent": indent, "skip_attrs": skip, "correlate_set": cset,
+            "include_marks": inc}
 
 
 def render(t) -> str:
-    out = ["/- GENERATED by translate/c03.py from ford/md_admonition.py and ford/settings.py - do not edit -/",
+    out = ["/- GENERATED by translate/c03.py from ford/md_admonition.py, ford/settings.py, ford/sourceform.py and "
+           "ford/reader.py - do not edit -/",
            "import FordModel.Basic.Chars", "namespace Ford.Gen", "",
            "/-- `ADMONITION_TYPE` (note type, css class), in dict order -/",
            "def admonitionTypes : List (Str × Str) := ["]
@@ -152,7 +327,13 @@ def render(t) -> str:
             "/-- attributes that some `correlate` method assigns on an object other than `self` -/",
             "def correlateSetAttrs : List Str := ["]
     out.append(",\n".join(f"  {_chars(a)}" for a in t["correlate_set"]))
-    out += ["]", "", "end Ford.Gen", ""]
+    out += ["]", "",
+            "/-- `FortranReader.include`: for the doc / pre / alt / pre-alt marker of the nested reader that reads an",
+            "    included file, where it comes from: `.inl i` = marker number `i` (same numbering) of the enclosing",
+            "    reader, `.inr s` = the constant `s` -/",
+            "def includeMarkSrc : List (Sum Nat Str) := [" +
+            ", ".join(f".inl {v}" if k == "outer" else f".inr {_chars(v)}" for k, v in t["include_marks"]) + "]",
+            "", "end Ford.Gen", ""]
     return "\n".join(out)
 
 
